@@ -202,7 +202,53 @@ def unrelated_case(args):
   return 1, 1, viols, []
 
 
+def sharing_scenarios(_=None):
+  """old and new share sub-configurations / containers by identity while aliases change."""
+  viols = []
+  n = 0
+  def run(label, old, new):
+    nonlocal n
+    n += 1
+    for v in check_pair(old, new, ('sharing', label)):
+      v.update(sharing=label)
+      viols.append(v)
+  for shared_len in (1, 2):
+    small = list(range(1, shared_len + 1))
+    inner = fdl.Config(pool.fb, x=small)
+    old = fdl.Config(pool.fc, small, q=inner)
+    run(f'small-list-aliased-{shared_len}',
+        old, fdl.Config(pool.fc, [9] * shared_len, q=inner))
+    run(f'small-list-alias-moved-{shared_len}',
+        old, fdl.Config(pool.fc, list(small), q=inner, r=small))
+  d = {'k': 1}
+  inner = fdl.Config(pool.fb, x=d, y=[d])
+  run('dict-aliased', fdl.Config(pool.fc, d, q=inner), fdl.Config(pool.fc, {'k': 2}, q=inner))
+  sub = fdl.Config(pool.Cls, 1)
+  holder = fdl.Config(pool.fb, x=sub)
+  run('sub-config-shared', fdl.Config(pool.fc, sub, q=holder, r=[sub]),
+      fdl.Config(pool.fc, fdl.Config(pool.Cls, 2), q=holder, r=[holder]))
+  t = (1, [2])
+  inner = fdl.Config(pool.fb, x=t)
+  run('tuple-with-list', fdl.Config(pool.fc, t, q=inner), fdl.Config(pool.fc, (1, [3]), q=inner))
+  # an alias created under a brand-new dict key / new list element
+  old = fdl.Config(pool.fc, {'p': 1}, q=[1, 2])
+  new = copy.deepcopy(old)
+  new.q[1] = 3
+  new.p['q'] = new.q
+  run('alias-under-new-dict-key', old, new)
+  old = fdl.Config(pool.fc, {'p': {'in': 1}}, q=fdl.Config(pool.fb, 1))
+  new = copy.deepcopy(old)
+  new.p['p']['cfg'] = new.q
+  new.p['again'] = new.q
+  run('config-alias-under-new-dict-keys', old, new)
+  return n, n, viols, [dict(scenario='sharing by identity')]
+
+
 def replay(case):
+  if case.get('sharing'):
+    r = sharing_scenarios()
+    m = [v for v in r[2] if v['sharing'] == case['sharing']]
+    return m[0]['what'] if m else None
   if case.get('unrelated'):
     r = unrelated_case(tuple(case['unrelated']))
   else:
@@ -219,6 +265,7 @@ def run(tier='quick', seed=0, nproc=16):
   jobs = [(n, s, False) for n in names for s in seqs] + [(n, (e,), True) for n in names for e in enames]
   res = common.pmap(check_case, gen.shuffled(jobs), nproc)
   res += common.pmap(unrelated_case, list(itertools.permutations(names, 2)), nproc)
+  res.append(sharing_scenarios())
   return common.merge(
       res, 'layerb.prop_C10', keyfn=lambda v: v.get('fkey'),
       rule='pairs (old, new): new = k <= %d edits of a deep copy of old (value change, callable swap, '
